@@ -689,8 +689,12 @@ fn state_bad(m: &M) -> bool {
         return true;
     }
     let c = m.clone();
+    // the target of clone_from already holds the source's keys in REVERSE order (with other values) plus a stale key: afterwards it is the source, in the source's order
     let mut d = M::with_capacity(n % 3);
     d.insert("zz-stale".to_string(), Value::Null);
+    for (k, _) in m.iter().rev() {
+        d.insert(k.clone(), Value::Bool(false));
+    }
     d.clone_from(m);
     let e = show_entries(m.iter());
     c != *m || d != *m || show_entries(c.iter()) != e || show_entries(d.iter()) != e || c.into_iter().len() != n
